@@ -279,9 +279,11 @@ def run_cases(cases, workdir, nbatch=8, indented=False):
     t_h = time.time() - t0
     gen = run_pvgen(cases, casedir)
     good = [c for c in cases if gen.get(c['id'], ('?',))[0] == 'OK']
-    nb = max(1, min(nbatch, (len(good) + 3) // 4))
-    batches = [good[i::nb] for i in range(nb)]
-    batches = [b for b in batches if b]
+    solo = [c for c in good if c.get('solo')]
+    regular = [c for c in good if not c.get('solo')]
+    nb = max(1, min(nbatch, (len(regular) + 3) // 4))
+    batches = [regular[i::nb] for i in range(nb)]
+    batches = [b for b in batches if b] + [[c] for c in solo]
     live, bins, cfail, t_build = build_batches(batches, casedir)
     impl = {}
     model = {}
